@@ -93,6 +93,16 @@ def sums_layer(ctx, conn):
                           meta={'query': q, 'group': str(k)})
                 ctx.check('cost-of-sum', ['(invcost %d %s)' % (S, ps)], lambda k=k: show_inv(got[k][3], S * S), nontrivial=len(plist) >= 2,
                           meta={'query': q, 'group': str(k)})
+            # LIMIT cuts the list of groups; every group that is left still sums all of its postings
+            full = conn.execute(q).fetchall()
+            for n in (1, 2, 3):
+                cut = conn.execute(q + ' LIMIT %d' % n).fetchall()
+                ctx.evaluations += 1
+                ctx.count('limit-oracle')
+                if [(r[0], show_inv(r[1])) for r in cut] != [(r[0], show_inv(r[1])) for r in full[:n]]:
+                    ctx.record_violation('limit-truncates-sums', '%s LIMIT %d: %s, without LIMIT the first groups are %s' % (
+                        q, n, [(r[0], str(r[1])) for r in cut], [(r[0], str(r[1])) for r in full[:n]]), payload={'query': q})
+                    break
             # partition: group sums add up to the total
             total = conn.execute('SELECT sum(position) FROM #postings%s' % w).fetchall()
             acc = inventory.Inventory()
@@ -239,11 +249,24 @@ def balance_layer(ctx, conn):
         ctx.record_violation('balance-consulted-in-where', '%s: %r vs %r' % (q2, [show_inv(r[1]) for r in rows2][:3], expect[:3]))
 
 
+ZERO_COST_TAIL = '''
+2030-01-07 * "fixed" "received for free"
+  Assets:Broker:ACME  3 ACME {0.00 USD, "gift"}
+  Income:Gains  0.00 USD
+
+2030-01-08 * "fixed" "received for free, again"
+  Assets:Broker:ACME  2 ACME {0 USD}
+  Income:Gains  0 USD
+'''
+
+
 def run(ctx):
     rng = ctx.rng
     n = 12 if ctx.thorough() else 3
     for k in range(n):
         text, entries, errors, options = ledgers.gen_ledger(rng, ntxn=rng.range(8, 25))
+        # lots received for nothing: their cost is zero, which is a cost all the same
+        entries, errors, options = ledgers.load(text + ZERO_COST_TAIL)
         conn = ledgers.connect(entries, errors, options)
         sums_layer(ctx, conn)
         nested_sums_layer(ctx, conn)
